@@ -18,7 +18,7 @@ import Selene.Lints.AlmostSwapped
 import Selene.Lints.MismatchedArgCount
 import Selene.Lints.MultipleStatements
 namespace Selene.Props.C04B
-open Selene.Lua Selene.Lints
+open Selene.Lua Selene.LintsB
 
 /-- search for a position in a concrete tree (non-vacuity examples) -/
 syntax "find_within" : tactic
